@@ -232,7 +232,8 @@ class ChartRun(object):
     ev = seams.mods['event']
     if uid is None:
       self.uid += 1
-      uid = 'e%d' % self.uid
+      # the payload identifies the event; it is a string, or (sc['uid_kind'] == 'int') a number
+      uid = 100000 + self.uid if self.sc.get('uid_kind') == 'int' else 'e%d' % self.uid
     e = ev.Event(signal=sig, payload=uid)
     self.events[uid] = e
     self.created.append(uid)
@@ -481,7 +482,7 @@ class ChartRun(object):
       ob.exc = type(e).__name__
       ob.tb = traceback.format_exc()[-1200:]
     self.cur_recs = None
-    ob.posted, self.created = [u for u in self.created if not u.startswith('fx')], []
+    ob.posted, self.created = [u for u in self.created if not str(u).startswith('fx')], []
     self.observe(ob)
     ob.model_q = [u for u, _ in self.qm.q]
     ob.model_d = [u for u, _ in self.qm.d]
